@@ -29,10 +29,9 @@ SHARDS = 8
 TIERS = {
     "quick": dict(nodes=2, threads=2, max_calls=1, init_edges=1, max_exec=6000,
                   extra=[dict(nodes=3, threads=3, max_calls=1, init_edges=1, max_exec=6000, rotational=True, pre_bound=2)]),
-    "thorough": dict(nodes=2, threads=2, max_calls=1, init_edges=2, max_exec=6000,
-                     extra=[dict(nodes=3, threads=2, max_calls=1, init_edges=1, max_exec=2000),
-                            dict(nodes=2, threads=3, max_calls=1, init_edges=0, max_exec=6000, pre_bound=3),
-                            dict(nodes=3, threads=3, max_calls=1, init_edges=1, max_exec=6000, rotational=True, pre_bound=3)]),
+    "thorough": dict(nodes=2, threads=2, max_calls=1, init_edges=2, max_exec=3000,
+                     extra=[dict(nodes=3, threads=2, max_calls=1, init_edges=1, max_exec=1000),
+                            dict(nodes=3, threads=3, max_calls=1, init_edges=1, max_exec=4000, rotational=True, pre_bound=3)]),
 }
 
 
